@@ -129,6 +129,8 @@ func c01GenTx(r *simrt.Rand, i int, nonces map[int]uint64) node.TxSpec {
 		s.K = "refund"
 		s.Miner = r.Intn(4)
 		s.Amount = []string{"100", "400", "18446744073709551615", "999999", "0"}[r.Intn(5)]
+	case x < 72:
+		s.K = "node"
 	case x < 75:
 		s.K = "chacct"
 		s.Miner = r.Intn(4)
